@@ -164,7 +164,13 @@ fn connect_variants(g: &mut Gen) {
     let auths: Vec<AuthSpec> = (0..rounds)
         .map(|i| AuthSpec { reason: Some(0x18), method: Some("SCRAM".into()), data: Some(vec![i as u8; 3]), user: vec![] })
         .collect();
-    g.push(Step::Start { connect, auths });
+    if g.rng.chance(1, 10) {
+        // the Context has served a connection before, which was cut inside an inbound packet
+        g.cut_connection_prelude();
+        g.push(Step::Reconnect { elapsed: 100_000, connect, auths });
+    } else {
+        g.push(Step::Start { connect, auths });
+    }
     g.settle();
     let mut responses = rounds + 1;
     while responses > 0 {
@@ -217,6 +223,19 @@ pub fn teardown(rng: &mut Rng) -> Case {
     g.preamble();
     for _ in 0..g.cfg.steps {
         g.action();
+    }
+    if g.rng.chance(1, 6) {
+        // a long backlog: many messages received for a subscription whose stream is opened
+        // (and drained in one go) only after the context is gone
+        let subs = g.unopened_subs();
+        if !subs.is_empty() {
+            let sub = *g.rng.pick(&subs);
+            let n = *g.rng.pick(&[15usize, 16, 17, 31, 32, 33, 63, 64, 65, 100, 130]);
+            for _ in 0..n {
+                g.inbound_publish_to(sub);
+            }
+            g.flush();
+        }
     }
     teardown_epilogue(&mut g);
     finish_case(g, "teardown")
@@ -353,7 +372,11 @@ pub fn wake_base(rng: &mut Rng) -> Case {
     };
     let mut g = Gen::new(cfg, rng);
     g.preamble();
-    for _ in 0..g.cfg.steps {
+    let burst_at = if g.rng.chance(1, 12) { Some(g.rng.usize_below(g.cfg.steps.max(1))) } else { None };
+    for k in 0..g.cfg.steps {
+        if burst_at == Some(k) {
+            g.burst();
+        }
         g.action();
     }
     if g.rng.coin() {
@@ -706,6 +729,24 @@ pub fn maxpacket(rng: &mut Rng) -> Case {
     } else {
         g.preamble();
     }
+    // subscriptions established before the requests under test: a refusal must leave their
+    // registrations alone (they get a message each at the end)
+    let mut anchors: Vec<usize> = Vec::new();
+    if g.rng.chance(1, 3) {
+        for _ in 0..g.rng.urange(1, 3) {
+            let id = g.next_op_id();
+            let spec = g.new_op_spec(3, id);
+            g.push(Step::Op { id, handle: 0, spec });
+            g.settle();
+            if g.ack_candidates().contains(&(id, AckKind::Suback)) {
+                g.send_ack(id, AckKind::Suback);
+                g.push(Step::Deliver { n: usize::MAX });
+                g.settle();
+                g.open_stream(id);
+                anchors.push(id);
+            }
+        }
+    }
     for _ in 0..n_ops {
         let id = g.next_op_id();
         let kind = g.rng.weighted(&[2, 3, 2, 2, 2, 1]);
@@ -731,6 +772,12 @@ pub fn maxpacket(rng: &mut Rng) -> Case {
         }
     }
     g.drain();
+    for a in anchors.clone() {
+        g.inbound_publish_to(a);
+    }
+    if !anchors.is_empty() {
+        g.flush();
+    }
     if let (Some(r), true) = (r, m.map(|m| m >= 20).unwrap_or(true)) {
         g.quota_probe(r as usize);
     }
@@ -855,6 +902,8 @@ fn resume_cfg(rng: &mut Rng) -> (GenCfg, u32) {
     cfg.drain = false;
     cfg.writer_tweaks = false;
     cfg.handles = rng.urange(1, 2);
+    // callers may abandon their futures at any point (the exchange goes on without them)
+    cfg.cancels = rng.chance(1, 3);
     // effective session expiry: CONNECT value, possibly overridden by CONNACK
     let connect_e = *rng.pick(&[None, Some(0u32), Some(30), Some(3600), Some(100_000), Some(u32::MAX)]);
     let connack_e = if rng.chance(1, 3) { Some(*rng.pick(&[0u32, 60, 7200, u32::MAX])) } else { None };
@@ -877,6 +926,136 @@ fn elapsed_for(rng: &mut Rng, effective: u32) -> u64 {
             }
         }
     }
+}
+
+/// C11 across connections of one Context: requests submitted while no `run()` is serving
+/// (between the loss of one connection and the next `connect()`), a session that expired or
+/// not, then identifier-consuming requests on the new connection while the queued ones are
+/// still unacknowledged.
+pub fn resume_ids(rng: &mut Rng) -> Case {
+    let (mut cfg, _) = resume_cfg(rng);
+    cfg.w_ops = [0, 3, 3, 2, 2, 0];
+    cfg.max_ops = rng.urange(1, 5);
+    cfg.steps = rng.urange(2, 14);
+    cfg.handles = rng.urange(1, 3);
+    cfg.cancels = false;
+    let expired = rng.coin();
+    cfg.session_expiry = Some(if expired { 0 } else { u32::MAX });
+    cfg.connack_session_expiry = None;
+    if rng.chance(1, 3) {
+        cfg.preset_ids = Some((rng.range(1, 40) as u16, rng.range(1, 40) as u32));
+    }
+    let mut g = Gen::new(cfg, rng);
+    g.preamble();
+    for _ in 0..g.cfg.steps {
+        g.action();
+    }
+    g.push(Step::WriterReady);
+    g.push(Step::Deliver { n: usize::MAX });
+    g.settle();
+    let k = if g.rng.coin() { FaultKind::ReadEof } else { FaultKind::ReadErr };
+    g.push(Step::Fault(k));
+    g.settle();
+    // requests submitted while nobody serves: they take their identifiers now and wait in
+    // the queue for the next run()
+    for _ in 0..g.rng.urange(0, 3) {
+        let id = g.next_op_id();
+        let kind = g.rng.weighted(&[0, 3, 3, 2, 2, 0]);
+        let spec = g.new_op_spec(kind, id);
+        let handle = g.rng.usize_below(g.cfg.handles.max(1));
+        g.push(Step::Op { id, handle, spec });
+        g.push(Step::Poll(TaskRef::Op(id)));
+    }
+    let connect = g.connect_spec();
+    let elapsed = *g.rng.pick(&[0u64, 7, 100_000]);
+    g.push(Step::Reconnect { elapsed, connect, auths: vec![] });
+    g.settle();
+    if expired {
+        for (op, _) in g.ack_candidates() {
+            g.mark_final(op);
+        }
+    }
+    let props = g.connack_props();
+    g.broker(BrokerPkt::Connack { session_present: !expired, reason: 0, props });
+    g.push(Step::Deliver { n: usize::MAX });
+    g.settle();
+    // new requests first (nothing acknowledged yet), then ordinary traffic
+    for _ in 0..g.rng.urange(1, 8) {
+        let id = g.next_op_id();
+        let kind = g.rng.weighted(&[0, 3, 3, 2, 2, 0]);
+        let spec = g.new_op_spec(kind, id);
+        let handle = g.rng.usize_below(g.cfg.handles.max(1));
+        g.push(Step::Op { id, handle, spec });
+        g.settle();
+    }
+    g.cfg.steps = g.rng.urange(0, 12);
+    for _ in 0..g.cfg.steps {
+        g.action();
+    }
+    g.drain();
+    finish_case(g, "resume/identifiers")
+}
+
+/// C10 across a resumed session: a small Receive Maximum, exchanges in flight when the
+/// connection is lost, resumption (session mostly unexpired), more traffic, then everything is
+/// acknowledged and the quota probe measures the free slots on the new connection.
+pub fn resume_quota(rng: &mut Rng) -> Case {
+    let (mut cfg, _) = resume_cfg(rng);
+    let r = rng.range(1, 5) as u16;
+    cfg.receive_max = Some(r);
+    cfg.w_ops = [0, 5, 5, 0, 0, 0];
+    cfg.max_ops = rng.urange(1, 6);
+    cfg.all_reasons = rng.coin();
+    let expired = rng.chance(1, 5);
+    cfg.session_expiry = Some(if expired { 0 } else { u32::MAX });
+    cfg.connack_session_expiry = None;
+    let mut g = Gen::new(cfg, rng);
+    g.preamble();
+    for _ in 0..g.cfg.steps.min(20) {
+        g.action();
+    }
+    g.push(Step::WriterReady);
+    g.push(Step::Deliver { n: usize::MAX });
+    g.settle();
+    if g.rng.chance(1, 3) {
+        // lose the connection while a QoS 2 publish is *between its phases*: the context has
+        // processed the PUBREC, the caller has not yet been polled to submit the PUBREL
+        let recs: Vec<(usize, AckKind)> = g.ack_candidates().into_iter().filter(|(_, k)| *k == AckKind::Pubrec).collect();
+        if !recs.is_empty() {
+            let (op, kind) = recs[g.rng.usize_below(recs.len())];
+            g.send_ack(op, kind);
+            g.push(Step::Poll(TaskRef::Ctx));
+        }
+    }
+    let k = if g.rng.coin() { FaultKind::ReadEof } else { FaultKind::ReadErr };
+    g.push(Step::Fault(k));
+    g.settle();
+    let connect = g.connect_spec();
+    let elapsed = *g.rng.pick(&[0u64, 5, 100_000]);
+    g.push(Step::Reconnect { elapsed, connect, auths: vec![] });
+    g.settle();
+    if expired {
+        // a conformant server has discarded the session: it never acknowledges what was sent in
+        // it (an exchange continuing with a first PUBREL is answered like any PUBREL)
+        for (op, _) in g.ack_candidates() {
+            g.mark_final(op);
+        }
+    }
+    // the new connection may announce a larger Receive Maximum, never a smaller one (a broker
+    // that lowers it below what is already in flight makes the property unsatisfiable)
+    let r2 = r + g.rng.range(0, 2) as u16;
+    g.cfg.receive_max = Some(r2);
+    let props = g.connack_props();
+    g.broker(BrokerPkt::Connack { session_present: !expired, reason: 0, props });
+    g.push(Step::Deliver { n: usize::MAX });
+    g.settle();
+    g.cfg.steps = g.rng.urange(0, 25);
+    for _ in 0..g.cfg.steps {
+        g.action();
+    }
+    g.drain();
+    g.quota_probe(r2 as usize);
+    finish_case(g, "resume/quota")
 }
 
 pub fn resume(rng: &mut Rng) -> Case {
